@@ -21,8 +21,15 @@ FAMILIES: list[list[int]] = []
 def menu(ctx: Ctx, rng: random.Random) -> list[dict]:
     m = []
     FAMILIES.clear()
-    for meth in ("00", "02", "06", "16", "17", "24", "25", "26", "61", "68", "76", "91"):
-        for acct in ("0000000000", "".join(rng.choice("0123456789") for _ in range(10))):
+    # every Bundesbank method: an account that triggers the method's special case (where it has one),
+    # an ordinary one and the all-zero account - a special case must not leave anything behind
+    for meth in c07.METHODS:
+        special = c07.boundary_accounts(meth, rng)
+        accts = ["0000000000", "".join(rng.choice("0123456789") for _ in range(10))]
+        if special:
+            accts = [special[0], special[len(special) // 2]] + accts[1:]
+        FAMILIES.append(list(range(len(m), len(m) + len(accts))))
+        for acct in accts:
             m.append({"op": "algo.validate", "method": meth, "account": cps(acct)})
     m += [
         {"op": "iban.new", "t": cps("DE89370400440532013000"), "vb": False},
